@@ -72,7 +72,8 @@ def build(r, kind):
     tref = {"$ref": "#/definitions/" + tname}
     user, enum = positions(tref, r)
     defs = {tname: target, "User": user, "Choice": enum, "Bystander": bystander}
-    if "properties" in target and target.get("type") == "object":
+    if "properties" in target and target.get("type") == "object" and target.get("additionalProperties") is not False:
+        # (a closed target makes the conjunction unsatisfiable: typify's empty enum is then correct)
         defs["Merged"] = {"allOf": [tref, {"type": "object", "properties": {"extra_member": {"type": "boolean"}},
                                            "required": ["extra_member"]}]}
     pascal = {"Target": "Target", "target-thing": "TargetThing", "my_target": "MyTarget"}[tname]
